@@ -137,6 +137,29 @@ func (g *Gen) seedGenesis(gs *GenesisSpec) {
 			gs.Did = append(gs.Did, DidGenesisEntry{Did: did, Seq: seq, Doc: g.didDoc(did, keys, 0)})
 		}
 	}
+	if bulkP := map[string]float64{"C05": 0.35, "C08": 0.25, "C04": 0.2}[g.prop]; r.Chance(0.12) || r.Chance(bulkP) {
+		// more DIDs than one default page (100) holds; the greatest identifiers are tombstones
+		n := r.Range(101, 108)
+		var ids []string
+		for i := 0; i < n; i++ {
+			ids = append(ids, didtypes.NewDID([]byte(fmt.Sprintf("bulk-did-%d-%d", i, n))))
+		}
+		sort.Strings(ids)
+		have := map[string]bool{}
+		for _, e := range gs.Did {
+			have[e.Did] = true
+		}
+		for i, did := range ids {
+			if have[did] {
+				continue
+			}
+			if i >= n-3 || i%17 == 5 {
+				gs.Did = append(gs.Did, DidGenesisEntry{Did: did, Tomb: true, Seq: uint64(1 + i%3)})
+			} else {
+				gs.Did = append(gs.Did, DidGenesisEntry{Did: did, Seq: uint64(i % 4), Doc: g.plainDoc(did, 4+i%8)})
+			}
+		}
+	}
 	// PNFT: denoms with tokens held by their creators
 	p := &PnftGenesisSpec{}
 	nDen := r.Range(1, 4)
@@ -311,6 +334,12 @@ func (g *Gen) boundaryTable() []MsgSpec {
 	mut(func(d *DocSpec) { d.CapInv = []RelSpec{{Unset: true}} })
 	mut(func(d *DocSpec) { d.CapDel = []RelSpec{{Ref: good + "#key1"}, {Unset: true}} })
 	mut(func(d *DocSpec) { d.Auth[0].Ref = good + "#missing" })
+	// a method embedded in a relationship under the id of a LISTED method, itself malformed (no type, a key that is not base58, no key)
+	dup := func(typ, raw string) *VMSpec { return &VMSpec{Id: good + "#key1", Type: typ, Controller: good, Key: -1, RawKey: raw} }
+	mut(func(d *DocSpec) { d.Assertion = []RelSpec{{VM: dup("", "3yZe7d")}} })
+	mut(func(d *DocSpec) { d.KeyAgree = []RelSpec{{VM: dup("EcdsaSecp256k1VerificationKey2019", "0OIl")}} })
+	mut(func(d *DocSpec) { d.CapInv = []RelSpec{{VM: dup("EcdsaSecp256k1VerificationKey2019", "")}} })
+	mut(func(d *DocSpec) { d.Auth = append(d.Auth, RelSpec{VM: dup("", "")}) })
 	// a plain reference to a method that exists only embedded in another relationship (earlier list, same list, later list)
 	emb := func() *VMSpec { return &VMSpec{Id: good + "#emb", Type: "EcdsaSecp256k1VerificationKey2019", Controller: good, Key: k} }
 	mut(func(d *DocSpec) { d.Assertion = []RelSpec{{VM: emb()}}; d.KeyAgree = []RelSpec{{Ref: good + "#emb"}} })
